@@ -20,17 +20,20 @@ worker() {
     chk=$(python3 - "seeded/$name/meta.json" <<'PY'
 import json,re,sys
 m=json.load(open(sys.argv[1]))
-# the last "vcheck Cxx quick" segment of the note that ends in a VIOLATION verdict
-segs=re.split(r'(?=vcheck C\d\d quick)', m['checks_run'])
-hits=[re.match(r'vcheck (C\d\d) quick', s).group(1) for s in segs if s.startswith('vcheck') and 'VIOLATION' in s]
+# the last "vcheck Cxx quick|thorough" segment of the note that ends in a VIOLATION verdict
+segs=re.split(r'(?=vcheck C\d\d (?:quick|thorough))', m['checks_run'])
+hits=[' '.join(re.match(r'vcheck (C\d\d) (quick|thorough)', s).groups()) for s in segs if s.startswith('vcheck') and 'VIOLATION' in s]
 print(hits[-1] if hits else "")
 PY
 )
     if [ -z "$chk" ]; then echo "$name: no catching check recorded (out of scope / duplicate)"; continue; fi
     git -C "$wt" apply "$PWD/seeded/$name/patch.diff" 2>/dev/null || { echo "$name: PATCH DOES NOT APPLY"; continue; }
-    out=$(VERIF_REPO_DIR="$wt" VERIF_HARNESS_DIR="$hs" ./vcheck "$chk" quick 2>&1 | grep -E "^(VIOLATION|OK|INCONCLUSIVE|BUILD-FAILED)" | head -1)
+    tier=${chk#* }; chk=${chk% *}
+    # a change that only the thorough tier reports: deterministic part in full, generated part cut short
+    [ "$tier" = thorough ] && export VERIF_CHECKS=1400 || unset VERIF_CHECKS
+    out=$(VERIF_REPO_DIR="$wt" VERIF_HARNESS_DIR="$hs" ./vcheck "$chk" "$tier" 2>&1 | grep -E "^(VIOLATION|OK|INCONCLUSIVE|BUILD-FAILED)" | head -1)
     git -C "$wt" checkout -- . ; git -C "$wt" clean -fdq
-    case "$out" in VIOLATION*) echo "$name: $chk ${out%% replay=*}";; *) echo "$name: $chk NOT REPORTED -> $out";; esac
+    case "$out" in VIOLATION*) echo "$name: $chk${tier#quick} ${out%% replay=*}";; *) echo "$name: $chk NOT REPORTED -> $out";; esac
   done
 }
 for k in $(seq 1 $n); do worker $k & done
